@@ -177,32 +177,49 @@ def anteOutOf (recovers : Bool) : StepOut → AnteOut
   | .zero => .pan .other
   | .noerr => .pan .other
 
+/-- the meter the ante installs on its new context -/
+def installMeter (kind : MeterKind) (gasWanted : Int) (incoming : Meter) : Except GasPanic Meter :=
+  match kind with
+  | .basic => (Basic.new gasWanted).map Meter.basic
+  | .pass => (Basic.new gasWanted).map (Meter.pass incoming)
+  | .inf => .ok (.infinite 0)
+  | .keep => .ok incoming
+
+/-- the incoming meter as seen after the ante ran on the installed meter `cur'`
+(`pre` = the incoming meter when the new one was installed) -/
+def anteIncoming (kind : MeterKind) (pre : Meter) (cur' : Meter) : Meter :=
+  match kind with
+  | .basic => pre
+  | .inf => pre
+  | .pass => cur'.baseOf
+  | .keep => cur'
+
+/-- the ante after it installed `cur` on the environment `e1` left by the pre-steps -/
+def anteAfterInstall (a : Ante) (e1 : Env) (cur : Meter) : AnteRes :=
+  { cache := (runSteps false a.steps { e1 with meter := cur }).1.cache,
+    cur := (runSteps false a.steps { e1 with meter := cur }).1.meter,
+    incoming := anteIncoming a.kind e1.meter (runSteps false a.steps { e1 with meter := cur }).1.meter,
+    out := anteOutOf a.recovers (runSteps false a.steps { e1 with meter := cur }).2 }
+
+/-- the environment the ante starts in: an empty tx cache over the parent -/
+def anteEnv (parent : Store) (incoming : Meter) : Env :=
+  { cache := [], parent := parent, meter := incoming, side := [] }
+
 def runAnte (a : Ante) (gasWanted : Int) (parent : Store) (incoming : Meter) : AnteRes :=
-  let r1 := runSteps false a.pre { cache := [], parent := parent, meter := incoming, side := [] }
-  match r1.2 with
+  match (runSteps false a.pre (anteEnv parent incoming)).2 with
   | .ok =>
-    let e1 := r1.1
-    -- install the meter
-    let installed : Except GasPanic Meter :=
-      match a.kind with
-      | .basic => (Basic.new gasWanted).map Meter.basic
-      | .pass => (Basic.new gasWanted).map (Meter.pass e1.meter)
-      | .inf => .ok (.infinite 0)
-      | .keep => .ok e1.meter
-    match installed with
-    | .error _ => { cache := e1.cache, cur := e1.meter, incoming := e1.meter, out := .pan .other }
-    | .ok cur =>
-      let r2 := runSteps false a.steps { e1 with meter := cur }
-      let cur' := r2.1.meter
-      let inc' := match a.kind with
-        | .basic => e1.meter
-        | .inf => e1.meter
-        | .pass => cur'.baseOf
-        | .keep => cur'
-      { cache := r2.1.cache, cur := cur', incoming := inc', out := anteOutOf a.recovers r2.2 }
+    match installMeter a.kind gasWanted (runSteps false a.pre (anteEnv parent incoming)).1.meter with
+    | .error _ =>
+      -- NewGasMeter(negative) panics inside the ante, before its recover is installed
+      { cache := (runSteps false a.pre (anteEnv parent incoming)).1.cache,
+        cur := (runSteps false a.pre (anteEnv parent incoming)).1.meter,
+        incoming := (runSteps false a.pre (anteEnv parent incoming)).1.meter, out := .pan .other }
+    | .ok cur => anteAfterInstall a (runSteps false a.pre (anteEnv parent incoming)).1 cur
   | o =>
     -- the pre-steps run before the ante's own recover is installed
-    { cache := r1.1.cache, cur := r1.1.meter, incoming := r1.1.meter, out := anteOutOf false o }
+    { cache := (runSteps false a.pre (anteEnv parent incoming)).1.cache,
+      cur := (runSteps false a.pre (anteEnv parent incoming)).1.meter,
+      incoming := (runSteps false a.pre (anteEnv parent incoming)).1.meter, out := anteOutOf false o }
 
 /-! ## runMsgs -/
 
@@ -297,6 +314,29 @@ def finishDeliverOld (f : Frame) (side : Store) : Frame :=
   else
     { f with hook := .fail, parent := (f.cp.getD []) ++ f.parent, cache := [], cp := none }
 
+/-- the environment the message handlers start in: the tx cache (holding the
+ante writes) over the parent, the ante's gas meter, and the fresh side cache made
+by `beginTxHook` -/
+def msgsEnv (f : Frame) : Env := { cache := f.cache, parent := f.parent, meter := f.cur, side := [] }
+
+/-- `cp.Checkpoint()`, `defer WriteCheckpoint`, then what `runMsgs` did to the
+context: the frame when `runMsgs` returns or panics -/
+def msgsFrame (tx : Tx) (f : Frame) (r : MsgsRes) : Frame :=
+  { f with cp := some f.cache, cpDefer := true,
+           cache := r.env.cache, cur := r.env.meter, msgsRan := r.ran,
+           incoming := (match tx.ante.kind with
+             | .pass => r.env.meter.baseOf
+             | .keep => r.env.meter
+             | _ => f.incoming) }
+
+/-- runTx from the return of `runMsgs` on -/
+def afterMsgs (fin : Frame → Store → Frame) (f : Frame) (r : MsgsRes) : Frame :=
+  match r.pan with
+  | some p => { f with pan := some p }
+  | none =>
+    if f.mode = .deliver then fin { f with result := r.res } r.env.side
+    else { f with result := r.res }          -- Simulate: return result
+
 /-- runTx after the ante handler returned without abort (`f` already carries the
 ante's context: `cur`, `incoming`, `gasWanted`, `cache`) -/
 def afterAnte (fin : Frame → Store → Frame) (tx : Tx) (f : Frame) : Frame :=
@@ -305,19 +345,12 @@ def afterAnte (fin : Frame → Store → Frame) (tx : Tx) (f : Frame) : Frame :=
     -- msCache.MultiWrite(); return result   (the outer, still zero, result)
     { f with parent := f.cache ++ f.parent, cache := [] }
   | _ =>
-    -- cp.Checkpoint(); defer WriteCheckpoint; beginTxHook; runMsgs
-    let r := runMsgs tx.msgs { cache := f.cache, parent := f.parent, meter := f.cur, side := [] } 0
-    let f := { f with cp := some f.cache, cpDefer := true,
-                      cache := r.env.cache, cur := r.env.meter, msgsRan := r.ran,
-                      incoming := (match tx.ante.kind with
-                        | .pass => r.env.meter.baseOf
-                        | .keep => r.env.meter
-                        | _ => f.incoming) }
-    match r.pan with
-    | some p => { f with pan := some p }
-    | none =>
-      if f.mode = .deliver then fin { f with result := r.res } r.env.side
-      else { f with result := r.res }          -- Simulate: return result
+    afterMsgs fin (msgsFrame tx f (runMsgs tx.msgs (msgsEnv f) 0)) (runMsgs tx.msgs (msgsEnv f) 0)
+
+/-- the frame with which runTx continues when the ante returned without abort -/
+def anteFrame (tx : Tx) (f : Frame) (a : AnteRes) : Frame :=
+  { f with anteRan := true, anteDone := true, cache := a.cache, cur := a.cur, incoming := a.incoming,
+           gasWanted := tx.gasWanted }
 
 /-- the body of runTx from `amino.Unmarshal` to the final `return result` -/
 def body (fin : Frame → Store → Frame) (tx : Tx) (f : Frame) : Frame :=
@@ -334,13 +367,7 @@ def body (fin : Frame → Store → Frame) (tx : Tx) (f : Frame) : Frame :=
                cur := (runAnte tx.ante tx.gasWanted f.parent f.cur).incoming,
                incoming := (runAnte tx.ante tx.gasWanted f.parent f.cur).incoming,
                result := if oog then .oog else .ante }
-    | .done =>
-      afterAnte fin tx
-        { f with anteRan := true, anteDone := true,
-                 cache := (runAnte tx.ante tx.gasWanted f.parent f.cur).cache,
-                 cur := (runAnte tx.ante tx.gasWanted f.parent f.cur).cur,
-                 incoming := (runAnte tx.ante tx.gasWanted f.parent f.cur).incoming,
-                 gasWanted := tx.gasWanted }
+    | .done => afterAnte fin tx (anteFrame tx f (runAnte tx.ante tx.gasWanted f.parent f.cur))
 
 /-- third defer (runs first): flush the ante writes if a checkpoint is still active -/
 def deferWriteCheckpoint (f : Frame) : Frame :=
